@@ -57,16 +57,23 @@ SELECTIONS = [
     # other vm variants: two vms needing equally named states from different setup tests
     ("only normal\nonly tutorial3\n", {"vm1": "only Fedora\n", "vm2": "only Win10\n", "vm3": "only Ubuntu\n"}, "net1 net2"),
     ("only normal\nonly tutorial1,tutorial3\n", {"vm1": "only Fedora\n", "vm2": "only Win7\n", "vm3": "only Ubuntu\n"}, "net1 net2"),
+    # a worker whose object restriction is a multi-valued `no` list given through a worker-suffixed job parameter (like the
+    # shipped `no_vm2 = WinXP, Win8` of net3, but naming a variant the selection really contains): vm2 is left open, so the
+    # Win7 flavours may only be composed for and executed by net1
+    ("only leaves\nonly tutorial_gui\n", {"vm1": "only CentOS\n", "vm2": "", "vm3": "only Ubuntu\n"}, "net1 net2",
+     {"no_vm2_net2": "WinXP, Win7"}),
     # a reversible setup test selected through a nested set (normal.gui) that is also the setup of tests of another set
     ("only leaves..tutorial_get..explicit_noop,leaves..tutorial_get..implicit_both,normal..tutorial_gui..client_noop\n",
      {"vm1": "only CentOS\n", "vm2": "only Win10\n", "vm3": "only Ubuntu\n"}, "net1"),
 ]
 MIXED_SETS = len(SELECTIONS) - 1
+RESTRICTED_WORKER = len(SELECTIONS) - 2
 
 
 def gen_parsed_spec(rng, idx=None):
     """idx: position in SELECTIONS (every selection is covered once per len(SELECTIONS) cases); None: random"""
-    tests_str, vm_strs, nets = SELECTIONS[idx % len(SELECTIONS)] if idx is not None else rng.choice(SELECTIONS)
+    sel = SELECTIONS[idx % len(SELECTIONS)] if idx is not None else rng.choice(SELECTIONS)
+    tests_str, vm_strs, nets = sel[:3]
     cfg = {"test_timeout": 1000}
     mixed = idx is not None and idx % len(SELECTIONS) == len(SELECTIONS) - 1
     if rng.random() < 0.4:
@@ -80,6 +87,8 @@ def gen_parsed_spec(rng, idx=None):
         cfg["params"] = rng.choice([{f"unset_mode_images_{vm}": "fi", f"unset_mode_vms_{vm}": "ri"},
                                     {f"unset_mode_images_{vm}": "ri", f"unset_mode_vms_{vm}": "fi"},
                                     {f"unset_mode_images_{vm}": "fi"}, {f"unset_mode_vms_{vm}": "fi"}])
+    if len(sel) > 3:
+        cfg["params"] = dict(cfg.get("params", {}), **sel[3])
     sched = {}
     for wid in nets.split():
         seq = []
